@@ -332,8 +332,19 @@ func (C19) Generate(c *Ctx, r *Rand, index int) *Scenario {
 		if evalAll {
 			argv = append(argv, "ea")
 		}
-		argv = append(argv, expr)
+		if rs.Chance(1, 5) {
+			// the expression comes as a positional *.yq file: it is not an input, the format is that of the first data file
+			sc.Files = append(sc.Files, File{Name: "pick.yq", Data: Bytes(expr + "\n"), Mode: 0644})
+			argv = append(argv, "pick.yq")
+			sc.Meta["positional_yq"] = true
+			sc.Meta["freeze_data"] = true
+		} else {
+			argv = append(argv, expr)
+		}
 		for _, f := range sc.Files {
+			if f.Name == "pick.yq" {
+				continue
+			}
 			argv = append(argv, f.Name)
 		}
 		sc.Argv = argv
@@ -501,7 +512,7 @@ func (C19) Generate(c *Ctx, r *Rand, index int) *Scenario {
 			{"-o=csv", "."}, {"-o=csv", ".c"}, {"-o=csv", "[.]"}, {"-o=tsv", "."}, {"-o=tsv", "[.]"}, {"-o=xml", ".d"}, {"-o=xml", ".e"},
 			{"-o=csv", "[{\"k\": 1}, {\"k\": {\"n\": 2}}]"}, {"-o=csv", "[{\"k\": 1}, {\"k\": [1]}]"}, {"-o=tsv", "[{\"k\": 1}, {\"k\": {\"n\": 2}}]"}, {"-o=csv", "[[1], [{\"a\": 1}]]"}, {"-o=csv", ".e + [{\"k\": .c}]"},
 			{"-o=csv", "[[1, 2], [3, [4]]]"}, {"-o=xml", "[1, 2]"}, {"-o=base64", ".c"}, {"-o=uri", ".c"},
-			{"-o=toml", "."}, {"-o=toml", ".d"}, {"-o=toml", ".c"}, {"-o=base64", "."}, {"-o=base64", ".d"}, {"-o=base64", ".a"}, {"-o=uri", "."}, {"-o=uri", ".d"},
+			{"-o=toml", "."}, {"-o=toml", ".d"}, {"-o=toml", ".c"}, {"-o=toml", "[]"}, {"-o=toml", ".d | map(select(false))"}, {"-o=base64", "."}, {"-o=base64", ".d"}, {"-o=base64", ".a"}, {"-o=uri", "."}, {"-o=uri", ".d"},
 			{"-o=xml", "{\"+directive\": \"DOCTYPE a <b\", \"r\": 1}"}, {"-o=xml", "{\"+p_xml\": \"version=\\\"1.0\\\" ?> x\", \"r\": 1}"}, {"-o=xml", "{\"r\": 1, \"+directive\": \"a > b <\"}"},
 			{"-o=xml", "{\"r\": {\"+@a\": [1, 2], \"b\": 1}}"}, {"-o=xml", "{\"r\": {\"+@a\": {\"n\": 1}}}"}, {"-o=xml", "{\"r\": {\"+@a\": .d}}"}, {"-o=xml", "{\"r\": {\"+@a\": .c, \"+content\": \"t\"}}"},
 		})
@@ -576,6 +587,9 @@ func (C19) Generate(c *Ctx, r *Rand, index int) *Scenario {
 
 func c19Split(sc *Scenario) (flags []string, names []string) {
 	expr := sc.MetaString("expr")
+	if sc.MetaBool("positional_yq") {
+		expr = "pick.yq" // the expression is given as a positional file
+	}
 	seen := false
 	for _, a := range sc.Argv {
 		switch {
